@@ -297,7 +297,8 @@ func calcPositionIfNeededHevc(pkt *RtpPacket) {
 	// +-------------+-----------------+
 
 	outerNaluType := hevc.ParseNaluType(b[0])
-	if _, ok := hevc.NaluTypeMapping[outerNaluType]; ok {
+	if outerNaluType < NaluTypeHevcAp {
+		// [0, 47]都是nal自身的类型(包括保留类型)，[48, 63]才是rtp层的类型
 		pkt.positionType = PositionTypeSingle
 		return
 	}
